@@ -216,6 +216,9 @@ pub enum FaultKind {
     /// over-long chunk, after which the (still running) entity stream goes on with chunks
     /// that would have fitted into what was still owed before the offending one
     LongThenMore,
+    /// the entity's own error, after which its stream goes on with the rest of the range (what a
+    /// file stream does when a failed read is retried): outside C20's premise, inside C12
+    ErrThenMore,
 }
 
 /// Scripts with exactly one fault, for a range of `n >= 1` bytes; `dev` benign deviations may
@@ -242,7 +245,11 @@ pub fn fault_scripts(n: u64, kmax: usize, dev: usize, max_events: usize) -> Vec<
                 if v.len() < max_events {
                     let mut e = v.clone();
                     e.push(Ev::Err);
-                    out.push((FaultKind::Err, e, Tail::Fused));
+                    out.push((FaultKind::Err, e.clone(), Tail::Fused));
+                    if e.len() < max_events && v.iter().all(|x| *x != Ev::Pending) {
+                        e.push(Ev::Data(n - *m));
+                        out.push((FaultKind::ErrThenMore, e, Tail::Fused));
+                    }
                 }
             }
         }
@@ -290,9 +297,19 @@ pub fn fault_scripts(n: u64, kmax: usize, dev: usize, max_events: usize) -> Vec<
             }
         }
     }
+    if n == 0 {
+        // nothing is owed: any byte is one too many
+        out.push((FaultKind::ExtraByte, vec![Ev::Data(1)], Tail::Fused));
+        out.push((FaultKind::ExtraByte, vec![Ev::Data(0), Ev::Data(1)], Tail::Fused));
+        out.push((FaultKind::ExtraByte, vec![Ev::Pending, Ev::Data(3)], Tail::Fused));
+    }
     // an endless stream of small chunks (the piece size keeps the number of polls bounded)
     out.push((FaultKind::Endless, vec![Ev::Data(if n <= 1000 { 1 } else { n / 7 + 1 })], Tail::Repeat));
-    out.push((FaultKind::Endless, vec![Ev::Data(n)], Tail::Repeat));
+    if n > 0 {
+        // (for n == 0 this would be an endless stream of empty chunks: it never terminates and
+        // nothing is asserted about it)
+        out.push((FaultKind::Endless, vec![Ev::Data(n)], Tail::Repeat));
+    }
     let mut res: Vec<(FaultKind, Script)> = out
         .into_iter()
         .map(|(k, evs, tail)| (k, Script { evs, tail }))
